@@ -39,6 +39,29 @@ pub fn run(env: &Env, run: &Run) -> (Stats, Coverage) {
         for a in alias_chars(c) {
             visit(env, &from_cps(&[x, a as u32]), st);
             visit(env, &from_cps(&[a as u32, x]), st);
+            // far apart / behind a long prefix, for the characters that have a width mapping
+            if (0xFF00..=0xFFEF).contains(&x) {
+                for s in long_pair_strings(c, a) {
+                    visit(env, &s, st);
+                }
+            }
+        }
+        // an unmapped character of the same UTF-8 lead byte (EF) right before / a few bytes before
+        // a mapped one, at every offset modulo 8 behind a long prefix (a search for the lead byte
+        // that resumes after a rejected candidate)
+        if (0xF000..=0xFFFF).contains(&x) && (x % 64 == 0 || (0xFB00..=0xFB06).contains(&x) || (0xFF00..=0xFFFF).contains(&x)) {
+            for pre in 32..40usize {
+                for gap in 0..3usize {
+                    for m in [0xFF21u32, 0xFF71] {
+                        let mut l: Vec<u32> = vec![0x61; pre];
+                        l.push(x);
+                        l.extend(std::iter::repeat(0x61).take(gap));
+                        l.push(m);
+                        l.extend([0x61, 0x61]);
+                        visit(env, &from_cps(&l), st);
+                    }
+                }
+            }
         }
     }));
 
